@@ -4,6 +4,7 @@ import (
 	"bytes"
 	"fmt"
 	"math"
+	"reflect"
 	"sort"
 
 	"github.com/yaricom/goNEAT/v4/neat"
@@ -119,6 +120,18 @@ type Scenario struct {
 	// caller may set; the library's own fixtures give all organisms of a species one id) - the property statements do not
 	// involve the ids of the generation that is turned over
 	IdsMod int `json:"genome_ids_modulo,omitempty"`
+	// Warm: the executor object and/or the options object have a past. Executor: before this history the same executor
+	// object turned over another population (other size, other options object) a few times. Options: the options object
+	// is a by-value copy of another options object that was already in use (a population was built with it), with every
+	// exported setting overwritten afterwards - the ordinary Go way of deriving a configuration.
+	Warm *WarmSpec `json:"warm,omitempty"`
+}
+
+type WarmSpec struct {
+	ExecPop    int  `json:"executor_served_population_of,omitempty"` // 0: executor is fresh
+	ExecEpochs int  `json:"executor_epochs,omitempty"`
+	CopiedOpts bool `json:"options_copied_from_used_object,omitempty"`
+	OtherPop   int  `json:"other_object_pop_size,omitempty"`
 }
 
 type OptSwitch struct {
@@ -139,6 +152,7 @@ type ScenarioCfg struct {
 	NoSwitch     bool // never change the options object during the history
 	ModularStart bool // one history in six is spawned from a modular start genome
 	DupIds       bool // one history in five starts with non-unique genome ids
+	Warm         bool // one history in four runs with an executor and/or options object that was used before (see WarmSpec)
 }
 
 func genScenario(cfg ScenarioCfg) *rapid.Generator[Scenario] {
@@ -179,6 +193,15 @@ func genScenario(cfg ScenarioCfg) *rapid.Generator[Scenario] {
 		}
 		if cfg.ModularStart && rapid.IntRange(0, 5).Draw(t, "modular start") == 0 {
 			sc.Ctor, sc.Start = "spawn", mg.Draw(t, "modular start genome")
+		}
+		if cfg.Warm && rapid.IntRange(0, 3).Draw(t, "warm objects") == 0 {
+			w := &WarmSpec{OtherPop: rapid.IntRange(4, 40).Draw(t, "other pop size")}
+			k := rapid.IntRange(0, 2).Draw(t, "warm kind")
+			if k != 1 {
+				w.ExecPop, w.ExecEpochs = w.OtherPop, rapid.IntRange(1, 3).Draw(t, "executor epochs")
+			}
+			w.CopiedOpts = k != 0
+			sc.Warm = w
 		}
 		if sc.Ctor == "reread" {
 			sc.PreEpochs = rapid.IntRange(1, 8).Draw(t, "pre epochs")
@@ -275,6 +298,16 @@ func buildPopulation(sc Scenario, opts *neat.Options) (*genetics.Population, err
 	}
 }
 
+// overwriteExported copies every exported field of src into dst (what a caller does setting by setting).
+func overwriteExported(dst, src *neat.Options) {
+	dv, sv := reflect.ValueOf(dst).Elem(), reflect.ValueOf(src).Elem()
+	for i := 0; i < dv.NumField(); i++ {
+		if dv.Field(i).CanSet() {
+			dv.Field(i).Set(sv.Field(i))
+		}
+	}
+}
+
 func newExecutor(opts *neat.Options) genetics.PopulationEpochExecutor {
 	if opts.EpochExecutorType == neat.EpochExecutorTypeParallel {
 		return &genetics.ParallelPopulationEpochExecutor{}
@@ -288,6 +321,28 @@ var buildOptions = func(o OptSpec) *neat.Options { return o.Build() }
 
 func runScenario(sc Scenario, h epochHooks, rec *Rec) error {
 	opts := buildOptions(sc.Opts)
+	var otherOpts *neat.Options
+	if sc.Warm != nil {
+		o := sc.Opts
+		o.PopSize = sc.Warm.OtherPop
+		if o.BabiesStolen > o.PopSize/2 {
+			o.BabiesStolen = o.PopSize / 2
+		}
+		o.CompatThreshold, o.DropOffAge = o.CompatThreshold*2+1, o.DropOffAge+3
+		otherOpts = o.Build()
+		if sc.Warm.CopiedOpts {
+			// the other object is used (a population is built with it), copied by value, and the copy receives this
+			// history's settings
+			seedLibrary(sc.Seed)
+			if _, err := genetics.NewPopulation(xorStart().Build(), otherOpts); err != nil {
+				return fmt.Errorf("NewPopulation for the other options object: %v", err)
+			}
+			derived := *otherOpts
+			overwriteExported(&derived, opts)
+			opts = &derived
+			rec.Class("options object is a by-value copy of a used one")
+		}
+	}
 	pop, err := buildPopulation(sc, opts)
 	if err == errSkipScenario {
 		rec.Class("skipped: constructor outside the domain (gene-less random genome / failing turnover before the checkpoint)")
@@ -319,6 +374,25 @@ func runScenario(sc Scenario, h epochHooks, rec *Rec) error {
 	}
 	ctx := opts.NeatContext()
 	exec := newExecutor(opts)
+	if sc.Warm != nil && sc.Warm.ExecPop > 0 {
+		wpop, err := genetics.NewPopulation(xorStart().Build(), otherOpts)
+		if err != nil {
+			return fmt.Errorf("NewPopulation for the executor's earlier population: %v", err)
+		}
+		wctx := otherOpts.NeatContext()
+		for e := 0; e < sc.Warm.ExecEpochs; e++ {
+			for i, o := range wpop.Organisms {
+				o.Fitness = float64(1 + (i*7+e)%5)
+			}
+			if err := exec.NextEpoch(wctx, e, wpop); err != nil {
+				if !h.turnoverMustSucceed {
+					break
+				}
+				return fmt.Errorf("the executor's earlier population, epoch %d: NextEpoch returned error: %v", e, err)
+			}
+		}
+		rec.Class("executor object turned over another population before")
+	}
 	for e := 0; e < sc.Epochs; e++ {
 		if sc.Switch != nil && e == sc.Switch.At {
 			opts = buildOptions(sc.Switch.Opts)
